@@ -6,7 +6,7 @@ V = os.path.abspath(os.path.join(os.path.dirname(__file__), ".."))
 NOTE = ("Trusted: Coq 8.16.1 kernel/coqc and vm_compute (no native_compute); no axioms (Print Assumptions of every property "
         "theorem is checked to be 'Closed under the global context' on every run; the one exception is Props/C03float.v, which uses Flocq over Coq's reals "
         "and depends on the standard library's ClassicalDedekindReals.sig_forall_dec, sig_not_dec, FunctionalExtensionality.functional_extensionality_dep and Classical_Prop.classic); the translators py2gallina.py (arithmetic kernel), py2gallina_cache.py (cache decisions), "
-        "py2gallina_revise.py (recursion of ReviseAnno over data frames: its table of pandas idioms), py2gallina_guards.py (refusal guards as boolean functions), py2gallina_reader.py (loading protocol of DensityData over symbolic file names), py2gallina_writers.py (writers of the intermediates as file-action lists), py2gallina_store.py (constructor of the density store over h5py's require_dataset), py2gallina_overlap.py (the loop that fills the overlap arrays, as an assignment log), py2gallina_merge.py (recogniser of MergeData's summation: parameter sets, slices, labels, the triple loop, as a density-array log), py2gallina_lookup.py (get_specific_slice, its verifications and index dictionaries over the label lists) and py2gallina_cf.py (queue/event loops as interaction programs); the "
+        "py2gallina_revise.py (recursion of ReviseAnno over data frames: its table of pandas idioms), py2gallina_guards.py (refusal guards as boolean functions), py2gallina_reader.py (loading protocol of DensityData over symbolic file names), py2gallina_writers.py (writers of the intermediates as file-action lists), py2gallina_store.py (constructor of the density store over h5py's require_dataset), py2gallina_overlap.py (the loop that fills the overlap arrays, as an assignment log), py2gallina_merge.py (recogniser of MergeData's summation: parameter sets, slices, labels, the triple loop, as a density-array log), py2gallina_lookup.py (get_specific_slice, its verifications and index dictionaries over the label lists), py2gallina_jobs.py (the file names carried by the job and result tuples to the readers of the density stage) and py2gallina_cf.py (queue/event loops as interaction programs); the "
         "correspondence harness (generators, drivers, abstraction, float rule); CPython/pandas/numpy/h5py. "
         "Modelled, not verified: int32/float32 narrowing, pandas/h5py semantics (tied by execution).")
 
@@ -32,8 +32,8 @@ CHECKS = {
              "per-group covered sets, disjointness and lengths at Revised_*.tsv and *_TEData.tsv.",
         design="DESIGN.md 6 C02"),
     "C03": dict(
-        technique="Coq proof (corollary of the C01 refinement: 0 <= cnt <= range length, divisor > 0; Flocq: binary32 rounding of such a quotient is a binary32 number in [0,1]) + differential execution with range check and bit-exact binary32(N/D) check of every cell",
-        text="Theorem c03_range over the model for all inputs; c03_float32 / c03_float32_ends (Flocq, depends on the standard library's real-number axioms, named in the trusted base): the binary32 rounding of N/D is in [0,1], "
+        technique="Coq proof (corollary of the C01 refinement: 0 <= cnt <= range length, divisor > 0, also for the cells of the translated code; Flocq: binary32 rounding of such a quotient is a binary32 number in [0,1]) + differential execution with range check and bit-exact binary32(N/D) check of every cell",
+        text="Theorem c03_range over the model for all inputs; c03_code_range: every cell the translated overlap loop and summation leave for a real group, on the data of any file of a successful model run, is a pair with 0 <= numerator <= divisor, 0 < divisor; c03_float32 / c03_float32_ends (Flocq, depends on the standard library's real-number axioms, named in the trusted base): the binary32 rounding of N/D is in [0,1], "
              "representable, and exact at 0 and 1; pile-up generator through the real library stages (every fourth case in an output directory used before), every cell of every file range-checked and "
              "compared bit for bit with binary32(N/D); thorough: Arabidopsis slice via the CLI. That numpy's float32 division is the IEEE correctly rounded quotient is trusted and exercised by the bit-exact comparison.",
         design="DESIGN.md 6 C03"),
@@ -42,8 +42,8 @@ CHECKS = {
         text="Theorems c04_runs/c04_perm for all permutations of either file; each generated pair run in 4-6 row orders through the real stages, outputs compared with each other and with the model; the check also builds Props/C01code.v (translated loop of OverlapWorker.calculate: rows are addressed by gene NAME, so the position of a gene in the arrays is the only thing a row order can change).",
         design="DESIGN.md 6 C04"),
     "C05": dict(
-        technique="Coq proof (locality of a chromosome's file; refusal iff chromosome sets differ) + _validate_split translated from /repo on every run and proved equal to the model's + differential execution",
-        text="Theorems c05_local/genes/files/reject; c18_code_validate_split(_iff): PreProcessor._validate_split as translated from the current sources accepts two sorted key lists iff they are equal; variants differing only on other chromosomes and chromosome-set mismatches (equal and unequal cardinality, interleaving name orders) through the real stages and the CLI.",
+        technique="Coq proof (locality of a chromosome's file; refusal iff chromosome sets differ) + the file names carried by the job / result tuples translated from /repo on every run (the density stage opens the overlap job's own files) + _validate_split translated from /repo on every run and proved equal to the model's + differential execution",
+        text="Theorems c05_local/genes/files/reject; c18_code_validate_split(_iff): PreProcessor._validate_split as translated from the current sources accepts two sorted key lists iff they are equal; c05_code_overlap_files / c05_code_density_reads_own_files: the gene cache, TE cache and overlap file of a chromosome, followed through _OverlapJob, OverlapResult and MergeJob as translated from the current sources, are the files the density stage of that chromosome opens; variants differing only on other chromosomes and chromosome-set mismatches (equal and unequal cardinality, interleaving name orders) through the real stages and the CLI.",
         design="DESIGN.md 6 C05"),
     "C06": dict(
         technique="Coq proof (count invariant under shift and reflection, monotone in the range; transported through the C01 refinement) + differential execution on triples",
@@ -72,7 +72,7 @@ CHECKS = {
     "C11": dict(
         technique="Coq proof (invariant of a labelled transition system, induction over schedules, any k) + _ProgressBars.handle_chrome translated from /repo on every run into an interaction program and proved in lockstep with the model under every schedule + deterministic-scheduler replay on the real class",
         text="Theorems c11_all_collected/never_more/terminates for every number of results and every interleaving; c11_code_refines_model/all_collected/never_more/terminates: the same statements about "
-             "handle_chrome (+ _pop, _collect) as translated from the current sources; legacy loop refuted (c11_legacy_refuted). "
+             "handle_chrome (+ _pop, _collect) as translated from the current sources; legacy loop refuted (c11_legacy_refuted); the check also builds the translated cache decisions (_filter_jobs: every job is completed or to do) and Props/C05code.v (one merge job per overlap result, computed or reused, naming the same three files). "
              "Schedules enumerated from the model are replayed on the real _ProgressBars (instrumented queue/event, no hook) and compared with the model; CLI runs with many chromosomes count result files. "
              "Modelled: atomic steps = flag test, pop(+append), put, set; the GIL / Manager proxies / pool teardown are not modelled.",
         design="DESIGN.md 6 C11"),
